@@ -15,7 +15,7 @@ from .collections_impl import (
     ContainNestedFieldMixin,
     _CollectionMeta,
 )
-from .fields import _map_to_field, verify_type_and_uniqueness
+from .fields import _map_to_field, _named_copy, verify_type_and_uniqueness
 from .numbers import Number
 from .strings import String
 
@@ -25,9 +25,10 @@ def extract_field_value(*, self, value, cls):
     res = cls()
     temp_st = Structure()
     for i, val in enumerate(value):
-        setattr(self.items, "_name", self._name + f"_{str(i)}")
-        self.items.__set__(temp_st, val)  # pylint: disable=unnecessary-dunder-call
-        res.append(getattr(temp_st, getattr(self.items, "_name")))
+        element = _named_copy(self.items, self._name + f"_{str(i)}")
+        setattr(self.items, "_name", element._name)
+        element.__set__(temp_st, val)  # pylint: disable=unnecessary-dunder-call
+        res.append(getattr(temp_st, element._name))
     return res
 
 
@@ -156,9 +157,10 @@ class Array(
                 for ind, item in enumerate(self.items):
                     if ind >= len(value):
                         continue
-                    setattr(item, "_name", self._name + f"_{str(ind)}")
-                    item.__set__(temp_st, value[ind])
-                    res.append(getattr(temp_st, getattr(item, "_name")))
+                    element = _named_copy(item, self._name + f"_{str(ind)}")
+                    setattr(item, "_name", element._name)
+                    element.__set__(temp_st, value[ind])
+                    res.append(getattr(temp_st, element._name))
                 res += value[len(self.items) :]
                 value = res
             verify_type_and_uniqueness(list, value, self._name, self.uniqueItems)
